@@ -219,6 +219,12 @@ def rule_shape(ctx: Ctx) -> RuleResult:
     stores = [n for n in walk_no_nested(sa.node) if isinstance(n, ast.Assign) and norm(n.targets[0]) == "self.preamble"]
     if not stores:
         raise AnalysisError("SHAPE-3: set_args no longer stores self.preamble")
+    rr.instances += 1
+    uncond = [n for n in stores if n in sa.node.body]
+    rr.ob(sa.relpath, sa.qualname, "self.preamble = ...", "every parse sets the preamble afresh (an absent or blank one "
+          "resets it): nothing of an earlier command line can be emitted again", DISCHARGED if uncond else VIOLATED,
+          "assigned unconditionally in set_args" if uncond else "assigned only under a condition: a Cli object reused for a "
+          "second command line keeps the previous preamble", stores[0].lineno)
     for n in stores:
         for v in ss.variants(sa, sa.module, n.value):
             rr.instances += 1
